@@ -95,7 +95,7 @@ def gen_hl_prims(rng, n):
                           round(rng.uniform(-0.3, 0.3), 3), v])
         elif k == 'go_to':
             prims.append(['go_to', round(rng.uniform(-2, 2), 3), round(rng.uniform(-2, 2), 3),
-                          rng.choice([None, round(rng.uniform(0.1, 1.5), 3)]), v])
+                          rng.choice([None, 0.0, round(rng.uniform(0.1, 1.5), 3)]), v])
         elif k == 'set_v':
             prims.append(['set_v', rng.choice([0.2, 0.5, 1.0])])
         elif k == 'set_h':
@@ -138,7 +138,8 @@ def directed(tier):
             plans.append({'seed': 995000 + n, 'scenario': 'directed-mc-ground', 'knobs': dict(base), 'version': 10,
                           'prog': {'kind': 'mc', 'with': w_, 'raise_at': None, 'default_height': 0.3}, 'ops': prims})
     for prims in ([['down', 0.5, None]], [['down', 0.8, None]], [['set_lh', 0.2], ['down', 0.4, None]],
-                  [['go_to', 0.0, 0.0, 0.05, None], ['set_lh', 0.2]], []):
+                  [['go_to', 0.0, 0.0, 0.05, None], ['set_lh', 0.2]], [['go_to', 1.0, 0.5, 0.0, None], ['forward', 0.5, None]],
+                  [['down', 0.5, None], ['up', 0.3, None]], []):
         n += 1
         plans.append({'seed': 995000 + n, 'scenario': 'directed-hl-ground', 'knobs': dict(base), 'version': 10,
                       'prog': {'kind': 'hl', 'with': True, 'raise_at': None, 'x': 0.0, 'y': 0.0, 'z': 0.0,
